@@ -57,6 +57,54 @@ CLAIMS = {
   design="DESIGN.md §4 C08",
   note="Assumes the abstract record interface and reference containers listed in the evidence; <= 3 RRs per response, "
        "<= 2 pre-existing cache entries, names <= the stated lengths; question count 1."),
+ "C02": dict(
+  text="Bounded model checking (CBMC) of the real parsers on exact-size buffers with symbolic bytes: every ares_buf reader "
+       "primitive from an arbitrary cursor state; ares_dns_name_parse / ares_expand_name / ares_expand_string on ALL byte "
+       "strings up to the stated lengths (the unwinding assertion is the no-loop claim) plus pointer-rule reject shapes; the "
+       "per-RR parser for every RR type x RDLENGTH disagreement x truncation; whole ares_dns_parse on truncated one-RR "
+       "messages; leak checks on every path.",
+  design="DESIGN.md §4 C02",
+  note="Shapes (lengths, types, embedded length bytes, header flags) concrete per job, all other bytes symbolic; arbitrary-byte "
+       "strings up to 12 (skip mode) / 3 (output mode) bytes in the quick tier, deeper in thorough; multi-RR messages and "
+       "ares_buf_split are outside the claim (see evidence)."),
+ "C05": dict(
+  text="Bounded model checking (CBMC) of the real acceptance path: ONE process_answer() (with same_questions, EDNS/TC/rcode "
+       "handling, end_query, server credit) for an ARBITRARY abstract response arriving on a connection while a request is in "
+       "flight on that or another connection; every combination of id match, question name/type match and letter case, "
+       "0x20 setting, transport, TC, rcode, OPT presence, cookie verdict, parse failure. Delivery, caching and server credit "
+       "must happen only for authentic matching responses.",
+  design="DESIGN.md §4 C05",
+  note="Record layer abstract (the parser stub hands out the abstract response), cookie verdict symbolic (C17 checks the real "
+       "one), nested requeue is a contract stub. Known finding stale_conn_reply (reply on a connection the request is no "
+       "longer assigned to is accepted) is reported, not hidden; the UDP source-address filter is checked in C20's "
+       "read_append_udp jobs; id uniqueness / 0x20 bit application kernels are not yet built."),
+ "C07": dict(
+  text="Bounded model checking (CBMC): ares_timeout() for arbitrary clocks/deadlines/maxtv (never negative, exactly "
+       "min(time to earliest deadline, caller maximum)); process_timeouts() retries/fails exactly the requests at or past "
+       "their deadline; ares_send_query registers a future deadline; and the event-thread wake obligation (registering the "
+       "earliest deadline must fire a wake path) with the event thread's callbacks as recorders.",
+  design="DESIGN.md §4 C07",
+  note="Kernel wake-up and wall-clock liveness are outside solver reach; the event loop's ms conversion and the per-backend "
+       "wait() conversions are not yet covered. Known finding evthread_idle_conn_nowake is reported."),
+ "C09": dict(
+  text="Bounded model checking (CBMC): the server comparator is a strict weak order on (failures, config index) for all "
+       "values; failure/success bookkeeping re-sorts and demotes/restores; probes are separate NOCACHE|NORETRY requests to a "
+       "failed server past its retry time, never the one just used, never altering the user's request; one level of "
+       "ares_send_query from an arbitrary server state picks a server with the fewest failures (first in config order "
+       "without rotation).",
+  design="DESIGN.md §4 C09",
+  note="Reference skip list (real one in C19); <= 2 servers in the send step, <= 3 in the health steps; RNG arbitrary, so "
+       "uniformity of rotation is not claimed, only membership in the best class."),
+ "C10": dict(
+  text="Bounded model checking (CBMC) with a virtual socket ledger (descriptors never reused; every call asserts 'open'): "
+       "ares_open_connection under every socket-layer / callback / allocation failure (nothing left open, registered or "
+       "announced on failure; exactly one on success); ares_check_cleanup_conns and ares_close_sockets from arbitrary "
+       "connection sets (closed exactly once, told to stop exactly once, busy connections never closed by cleanup); "
+       "ares_fds / ares_getsock report exactly the open sockets that matter; one level of ares_send_query keeps the "
+       "descriptor protocol and the udp_max_queries limit.",
+  design="DESIGN.md §4 C10",
+  note="Histories are covered inductively (one step from an arbitrary valid connection set, <= 2 servers x <= 2 "
+       "connections); ares_sortaddrinfo's probe sockets and ares_destroy teardown are not yet covered."),
 }
 NA = {}
 for i in range(1, 21):
